@@ -752,6 +752,122 @@ Fixpoint frun (F : Z) (A : id) (w : fworld) (ops : list fop) : fworld * list (li
 Definition fw0 (A : id) : fworld :=
   FW (talk 0 ∅ (Single (Leaf A SvHello 1 BHello) [])).1.1 ∅ [] [].
 
+(* ---- Flags: how conn.process / receive dispatch on each flag ----------------------------------- *)
+(* A data packet (ID >= MvRefresh or any ID; a payload) with ANY combination of FlagMulti,
+   FlagMultiDevice, FlagFrag, FlagProxy, any count in Flags.Len() and any device, arriving on the Channel
+   connection of host h (conn.channelRead: no table lookup, c.host = h) or on a polling connection
+   (Listener.talk: the host is the session found for the packet's device).
+   conn.process:  FlagMultiDevice (alone!) => processMultiple, else processSingle -> notify -> receive.
+   receive(h, n): the device check  h.ID != n.Device  is made unless FlagMultiDevice is set; then
+                  FlagMulti => every entry through receive again; else FlagFrag => count 0: error, count 1:
+                  the packet itself, more: collected (nothing is handled yet); else the handler.
+   processMultiple: count 0: error; every entry to the session of the device IT names (the host's own
+                  entries through receive on the host, the others through talkSub).
+   The body: XPlain / XBad: a payload that is not a sequence of packets; XCont: well-formed entries
+   (flag-less data packets).  xp_cnt is Flags.Len() (for XCont the number of entries). *)
+Definition xsub := (id * Z * Z)%type.
+Inductive xbody := XPlain | XCont (subs : list xsub) | XBad.
+Record xpkt := XP { xp_dev : id; xp_pid : Z; xp_job : Z; xp_multi : bool; xp_mdev : bool; xp_frag : bool;
+                    xp_proxy : bool; xp_cnt : Z; xp_body : xbody }.
+
+Definition x_hand (s : session) (d : id) (pid job : Z) : list eff :=
+  if pid <? MvRefresh then [] else [EHandle (s_id s) d job].
+(* receive(h, l, v) for a flag-less entry *)
+Definition recv_plain (h : session) (v : xsub) : list eff * option Z :=
+  let '(d, pid, job) := v in
+  if id_empty d then ([], None)
+  else if negb (id_eqb (s_id h) d) then ([], Some EMismatch)
+  else (x_hand h d pid job, None).
+Fixpoint recv_subs (h : session) (subs : list xsub) : list eff * option Z :=
+  match subs with
+  | [] => ([], None)
+  | v :: r =>
+    if id_empty (v.1.1) then ([], Some EOther)
+    else match recv_plain h v with
+         | (e, Some err) => (e, Some err)
+         | (e, None) => let '(e', r') := recv_subs h r in (e ++ e', r')
+         end
+  end.
+Definition recv_x (h : session) (n : xpkt) : list eff * option Z :=
+  if id_empty (xp_dev n) then ([], None)
+  else if negb (xp_mdev n) && negb (id_eqb (s_id h) (xp_dev n)) then ([], Some EMismatch)
+  else if xp_multi n then
+    if xp_cnt n =? 0 then ([], Some ECount)
+    else match xp_body n with XCont l => recv_subs h l | _ => ([], Some EOther) end
+  else if xp_frag n then
+    if xp_cnt n =? 0 then ([], Some ECount)
+    else if xp_cnt n =? 1 then (x_hand h (xp_dev n) (xp_pid n) (xp_job n), None)
+    else ([], None)
+  else (x_hand h (xp_dev n) (xp_pid n) (xp_job n), None).
+(* processMultiple's loop: the error of the host's own entries is only logged *)
+Fixpoint pm_subs (t : table) (h : session) (subs : list xsub) : list eff * option Z :=
+  match subs with
+  | [] => ([], None)
+  | v :: r =>
+    if id_empty (v.1.1) then ([], Some EOther)
+    else if id_eqb (s_id h) (v.1.1) then
+      let '(e, _) := recv_plain h v in let '(e', r') := pm_subs t h r in (e ++ e', r')
+    else match lookup true t (v.1.1) with
+         | Own s => match recv_plain s v with
+                    | (e, Some err) => (e, Some err)
+                    | (e, None) => let '(e', r') := pm_subs t h r in (e ++ e', r')
+                    end
+         | _ => pm_subs t h r           (* unregistered: re-registration request *)
+         end
+  end.
+Definition process_x (t : table) (h : session) (n : xpkt) : list eff * option Z :=
+  if xp_mdev n then
+    if xp_cnt n =? 0 then ([], Some ECount)
+    else match xp_body n with XCont l => pm_subs t h l | _ => ([], Some EOther) end
+  else recv_x h n.
+
+Record xworld := XW { xw_tbl : table; xw_open : list Z }.
+Inductive xop :=
+| XReg (d : id) (j : Z)           (* hello through Listener.talk *)
+| XOpen (d : id)                  (* d's connection becomes a Channel *)
+| XChan (d : id) (n : xpkt)       (* the packet n arrives on d's Channel connection *)
+| XPoll (n : xpkt).               (* the packet n arrives on a polling connection (Listener.talk) *)
+Definition x_is_open (w : xworld) (d : id) : bool :=
+  match server_session (xw_tbl w) d with Some _ => existsb (Z.eqb (hash d)) (xw_open w) | None => false end.
+Definition xstep (w : xworld) (o : xop) : xworld * list eff * ans :=
+  match o with
+  | XReg d j =>
+    if x_is_open w d then (w, [], ABool false)
+    else let '(t', e, r) := talk 0 (xw_tbl w) (Single (Leaf d SvHello j BHello) []) in (XW t' (xw_open w), e, r)
+  | XOpen d =>
+    match server_session (xw_tbl w) d with
+    | Some _ => if x_is_open w d then (w, [], ABool false) else (XW (xw_tbl w) (hash d :: xw_open w), [], ABool true)
+    | None => (w, [], ABool false)
+    end
+  | XChan d n =>
+    match server_session (xw_tbl w) d with
+    | Some h =>
+      if x_is_open w d then
+        match process_x (xw_tbl w) h n with
+        | (e, Some err) => (XW (xw_tbl w) (List.filter (fun k => negb (k =? hash d)) (xw_open w)), e, AErr EOther)   (* the reader logs the error and stops: conn.stop *)
+        | (e, None) => (w, e, ABool true)
+        end
+      else (w, [], ABool false)
+    | None => (w, [], ABool false)
+    end
+  | XPoll n =>
+    let d := xp_dev n in
+    if id_empty d then (w, [], AErr EClosed)
+    else if x_is_open w d then (w, [], ABool false)
+    else match lookup true (xw_tbl w) d with
+         | Own h => match process_x (xw_tbl w) h n with
+                    | (e, Some err) => (w, e, AErr err)
+                    | (e, None) => (w, e, ABool true)
+                    end
+         | _ => (w, [], ARegister d)
+         end
+  end.
+Fixpoint xrun (w : xworld) (ops : list xop) : xworld * list (list eff) :=
+  match ops with
+  | [] => (w, [])
+  | o :: r => let '(w1, e, _) := xstep w o in let '(w2, l) := xrun w1 r in (w2, e :: l)
+  end.
+
 (* ---- correspondence cases --------------------------------------------------- *)
 (* observable events of one step, in the order the server's event loop delivered them *)
 Inductive ev := VNew (sid : id) | VRecv (sid pdev : id) (job : Z) | VDrop (sid : id).
@@ -779,13 +895,17 @@ Record cobs := CObs { co_ans : ans; co_tbl : list csnap; co_conns : list (Z * li
 (* one step of a forwarding history: answer, handler events, A's send queue afterwards *)
 Record fobs := FObs { fo_ans : ans; fo_evs : list ev; fo_q : list wpkt }.
 
+(* one step of a flag history: answer, handler events *)
+Record xobs := XObs { xo_ans : ans; xo_evs : list ev }.
+
 Inductive case :=
 | CHash (d : id) (h : Z)                                        (* ID.Hash *)
 | CConsts (hello register complete refresh shutdown : Z)        (* SvHello, SvRegister, SvComplete, MvRefresh, SvShutdown *)
 | CHist (ops : list op) (o : list obs)                          (* a history on a fresh Server + Listener *)
 | CProxy (ops : list pop) (o : list pobs)                       (* a history on a fresh Proxy *)
 | CChan (ops : list cop) (o : list cobs)                        (* a history with Channels on a fresh Server + Listener *)
-| CFwd (F : Z) (A : id) (ops : list fop) (o : list fobs).       (* a client behind A's Proxy, limits.Frag = F *)
+| CFwd (F : Z) (A : id) (ops : list fop) (o : list fobs)        (* a client behind A's Proxy, limits.Frag = F *)
+| CFlag (ops : list xop) (o : list xobs).                       (* packets with every flag combination *)
 
 Definition out_eqb (a b : out) : bool :=
   let '(d, p, j) := a in let '(d', p', j') := b in id_eqb d d' && (p =? p') && (j =? j').
@@ -886,6 +1006,16 @@ Fixpoint frun_check (F : Z) (A : id) (w : fworld) (ops : list fop) (o : list fob
   | _, _ => false
   end.
 
+Fixpoint xrun_check (w : xworld) (ops : list xop) (o : list xobs) : bool :=
+  match ops, o with
+  | [], [] => true
+  | x :: ops', y :: o' =>
+    let '(w', e, r) := xstep w x in
+    ans_eqb (match r with AReply _ _ => ABool true | _ => r end) (xo_ans y)
+    && list_eqb ev_eqb (flat_map ev_of e) (xo_evs y) && xrun_check w' ops' o'
+  | _, _ => false
+  end.
+
 Definition check_g (chk : bool) (c : case) : bool :=
   match c with
   | CHash d h => hash d =? h
@@ -894,6 +1024,7 @@ Definition check_g (chk : bool) (c : case) : bool :=
   | CProxy ops o => prun_check chk (Proxy ∅ []) ops o
   | CChan ops o => crun_check cw0 ops o
   | CFwd F A ops o => frun_check F A (fw0 A) ops o
+  | CFlag ops o => xrun_check (XW ∅ []) ops o
   end.
 (* the code as it is *)
 Definition check := check_g true.
